@@ -23,6 +23,7 @@ type Env struct {
 	nq          *int
 	con         *Contract
 	facts       *[]Term // valid arithmetic facts (mod range lemmas) for terms built so far
+	inQuant     bool
 }
 
 // modFacts returns the two range lemmas of integer remainder for a symbolic divisor; they are
@@ -146,6 +147,7 @@ func (vc *VC) specExpr(env *Env, e SExpr) (Term, types.Type) {
 		}
 		var qfacts []Term
 		ne.facts = &qfacts
+		ne.inQuant = true
 		body, _ := vc.specExpr(ne, x.Body)
 		if len(qfacts) > 0 {
 			body = And(append(qfacts, body)...)
@@ -804,8 +806,10 @@ func (vc *VC) specCall(env *Env, x *SCall) (Term, types.Type) {
 		}
 		k = vc.coerceKey(env, k, kt, mm.Key())
 		h := And(Not(Eq(m, NilP)), Select(vc.mapDom(env.st, mm, m), k))
-		if env.facts != nil {
-			*env.facts = append(*env.facts, Implies(h, Lt(IntLit(0), vc.mapLen(env.st, m))))
+		if !env.inQuant {
+			// a map that has a key is not empty (an assumption linking the two views of a map; only
+			// stated for ground terms, never inside a goal)
+			vc.q.Assert(Implies(h, Lt(IntLit(0), vc.mapLen(env.st, m))))
 		}
 		return h, boolT
 	case "fresh":
